@@ -45,4 +45,18 @@ theorem sentinels : Generated.streamSentinels = Expected.streamSentinels := by d
 theorem stateEdges : Generated.stateEdges = Expected.stateEdges := by decide
 theorem kinds : Generated.kinds = Expected.kinds := by decide
 
+/-! constructors, accessors and small helpers -/
+theorem x_drpcstream_stream_New : Generated.fp_drpcstream_stream_New = Expected.fp_drpcstream_stream_New := by decide
+theorem x_drpcstream_stream_Stream_Context : Generated.fp_drpcstream_stream_Stream_Context = Expected.fp_drpcstream_stream_Stream_Context := by decide
+theorem x_drpcstream_stream_Stream_Finished : Generated.fp_drpcstream_stream_Stream_Finished = Expected.fp_drpcstream_stream_Stream_Finished := by decide
+theorem x_drpcstream_stream_Stream_ID : Generated.fp_drpcstream_stream_Stream_ID = Expected.fp_drpcstream_stream_Stream_ID := by decide
+theorem x_drpcstream_stream_Stream_IsFinished : Generated.fp_drpcstream_stream_Stream_IsFinished = Expected.fp_drpcstream_stream_Stream_IsFinished := by decide
+theorem x_drpcstream_stream_Stream_IsTerminated : Generated.fp_drpcstream_stream_Stream_IsTerminated = Expected.fp_drpcstream_stream_Stream_IsTerminated := by decide
+theorem x_drpcstream_stream_Stream_SetManualFlush : Generated.fp_drpcstream_stream_Stream_SetManualFlush = Expected.fp_drpcstream_stream_Stream_SetManualFlush := by decide
+theorem x_drpcstream_stream_Stream_Terminated : Generated.fp_drpcstream_stream_Stream_Terminated = Expected.fp_drpcstream_stream_Stream_Terminated := by decide
+theorem x_drpcstream_stream_streamCtx_Done : Generated.fp_drpcstream_stream_streamCtx_Done = Expected.fp_drpcstream_stream_streamCtx_Done := by decide
+theorem x_drpcstream_stream_streamCtx_Err : Generated.fp_drpcstream_stream_streamCtx_Err = Expected.fp_drpcstream_stream_streamCtx_Err := by decide
+theorem x_drpcstream_stream_streamCtx_Value : Generated.fp_drpcstream_stream_streamCtx_Value = Expected.fp_drpcstream_stream_streamCtx_Value := by decide
+theorem x_drpcstream_pktbuf_packetBuffer_init : Generated.fp_drpcstream_pktbuf_packetBuffer_init = Expected.fp_drpcstream_pktbuf_packetBuffer_init := by decide
+
 end Drpc.Tie.C03
